@@ -315,11 +315,30 @@ func (p *parser) parseObjectProperty() ast.Property {
 	return exp
 }
 
+// checkObjectProperty reports the early errors of ES5 11.1.5: a data
+// property and an accessor of the same name, or two getters or two setters
+// of the same name, in one object literal.
+func (p *parser) checkObjectProperty(idx file.Idx, previous []ast.Property, property ast.Property) {
+	for _, other := range previous {
+		if other.Key != property.Key {
+			continue
+		}
+		data := other.Kind == "value" || property.Kind == "value"
+		if (data && other.Kind != property.Kind) || (!data && other.Kind == property.Kind) {
+			p.error(idx, "Object literal may not have multiple get/set accessors or data and accessor property with the same name")
+			return
+		}
+	}
+}
+
 func (p *parser) parseObjectLiteral() ast.Expression {
 	var value []ast.Property
 	idx0 := p.expect(token.LEFT_BRACE)
 	for p.token != token.RIGHT_BRACE && p.token != token.EOF {
-		value = append(value, p.parseObjectProperty())
+		idx := p.idx
+		property := p.parseObjectProperty()
+		p.checkObjectProperty(idx, value, property)
+		value = append(value, property)
 		if p.token == token.COMMA {
 			if p.mode&StoreComments != 0 {
 				p.comments.Unset()
